@@ -234,4 +234,33 @@ var plans = map[string]Plan{
 			{Name: "random", Pkg: "./checks/c17", Run: "^TestRandom$", Rapid: true, Shards: [2]int{7, 16}, Checks: [2]int{40, 200}},
 		},
 	},
+	"C01": {
+		Level: "exploration",
+		Rule: "cases are (generated program, named type, value): programs from the constructive generator (1-3 files; all base types; nested containers incl. unhashable keys and slice-annotated sets; typedef chains; enums; structs / unions / exceptions incl. recursive ones; defaults and constants of every literal form; services with inheritance; go.* annotations) generated with drawn option sets (zap on/off, strict enum text, single output file, no-recurse, no-embed-idl) by the working tree's compile+gen into a scratch module; for every struct, union, exception, typedef, enum, args and result type, schema-directed values (absent / present optionals, empty / non-empty containers, boundary numbers, raw double bits, unknown enum values), re-ordered on the wire for the deserializers and delivered under a drawn read segmentation. " +
+			"Oracle: bytes of x.Encode(stream) and of Encode(x.ToWire()) decode under the independent reference codec to the value with declared defaults filled; x.Decode(stream) and x.FromWire(Decode()) of a reference encoding read back (by reflection) as that value. " +
+			"Non-trivial: the type has >=2 fields or is a container typedef, and the value contains a container, nested struct or filled default. Distinct: SHA-256 of (program, type, canonical value).",
+		Assumptions: []string{
+			"harness/drv converts wire trees <-> Go values by reflection following the documented Go type mapping and idlmodel.GoName; a mismatch surfaces as a driver error (key driver/*), never as silence",
+			"idlmodel reference semantics for defaults (Fill / Eval)",
+			"programs whose generated Go does not build are skipped here (counted under skipped_programs) and reported by C06",
+		},
+		Units: []Unit{
+			{Name: "c01-values", Run: "^TestC01$", Rapid: true, Shards: [2]int{12, 16}, Checks: [2]int{1000, 10000}, Lab: &LabSpec{Kind: "value", Programs: [2]int{24, 160}}},
+		},
+	},
+	"C06": {
+		Level: "exploration",
+		Rule: "cases are (multi-file program, CLI option set): (safe pool) programs whose identifiers cannot clash after Go name mapping, over every type constructor, typedef chains, defaults and constants of every literal form (incl. defaults on typedef'd types, cross-file enum defaults, struct / union / container literals), recursive types, services with inheritance across files, go.name / go.label / go.tag / go.type / go.redact / go.nolog annotations (also on parameters and exceptions); (hostile pool) the same with identifiers and file names drawn from Go keywords, initialisms, SCREAMING_CASE, generated method / helper names, names colliding after case mapping, std / runtime package names, cyclic includes, repeated exception types; x option sets {no-zap, enum-text-marshal-strict, no-recurse, output-file, no-embed-idl}. Programs are generated by the working tree's compile+gen and built with go build (plus go vet in the thorough tier) in a scratch module. " +
+			"Oracle: safe => accepted and the emitted Go builds; hostile => rejected with an error (and nothing written) or the emitted Go builds. " +
+			"Non-trivial: the program instantiates a shape class absent from the repository fixtures (listed in the class histogram) or comes from the hostile pool. Distinct: SHA-256 of (program JSON, options).",
+		Assumptions: []string{
+			"the safe pool makes Go-name clashes impossible by construction (distinct stems, no reserved words, no generated-method names); a function throwing one exception type twice counts as not representable in Go (hostile pool)",
+			"go vet diagnostics are recorded, only build errors count",
+			"the hidden --generate-plugin-api output is not built (it imports thriftrw internals)",
+		},
+		Units: []Unit{
+			{Name: "safe", Pkg: "./checks/c06", Run: "^TestSafe$", Shards: [2]int{5, 10}, Weight: 2},
+			{Name: "hostile", Pkg: "./checks/c06", Run: "^TestHostile$", Shards: [2]int{4, 8}, Weight: 2},
+		},
+	},
 }
